@@ -138,8 +138,81 @@ def is_regex_test(t):
     return t[0] == "call" and (t[1] in ("re.match", "re.search", "re.fullmatch") or t[1].rpartition(".")[2] in REGEX_TESTS and t[1].startswith("ural."))
 
 
+def concat(parts):
+    """string building in one normal form: a left-nested concatenation with adjacent constants folded"""
+    parts = [p for p in parts if p != ("const", "")]
+    if not parts:
+        return ("const", "")
+    t = parts[0]
+    for p in parts[1:]:
+        t = mkbinop("Add", t, p)
+    return t
+
+
+def _split_percent(fmt, args):
+    """pieces of `fmt % args` when fmt only uses %s (and %%); None otherwise"""
+    import re as _re
+    if _re.search(r"%(?![s%])", fmt):
+        return None
+    out = []
+    i = 0
+    k = 0
+    for m in _re.finditer(r"%[s%]", fmt):
+        if m.start() > i:
+            out.append(("const", fmt[i:m.start()]))
+        if m.group(0) == "%%":
+            out.append(("const", "%"))
+        else:
+            if k >= len(args):
+                return None
+            out.append(args[k])
+            k += 1
+        i = m.end()
+    if i < len(fmt):
+        out.append(("const", fmt[i:]))
+    return out if k == len(args) else None
+
+
+def _split_format(fmt, args, kwargs):
+    """pieces of fmt.format(*args, **kwargs) when fmt only uses {} / {n} / {name} (optionally !s) fields; None otherwise"""
+    import string as _string
+    out = []
+    auto = 0
+    try:
+        fields = list(_string.Formatter().parse(fmt))
+    except ValueError:
+        return None
+    kw = dict(kwargs)
+    for lit, name, spec, conv in fields:
+        if lit:
+            out.append(("const", lit))
+        if name is None:
+            continue
+        if spec or conv not in (None, "s"):
+            return None
+        if name == "":
+            if auto >= len(args):
+                return None
+            out.append(args[auto])
+            auto += 1
+        elif name.isdigit():
+            if int(name) >= len(args):
+                return None
+            out.append(args[int(name)])
+        elif name in kw:
+            out.append(kw[name])
+        else:
+            return None
+    return out
+
+
 def mkbinop(op, l, r):
     """string concatenation is kept left-nested with adjacent constants folded: ('a' + 'b') + x == 'ab' + x == 'a' + ('b' + x)"""
+    if op == "Mod" and l[0] == "const" and isinstance(l[1], str):
+        args = list(r[1]) if r[0] == "tuple" else [r]
+        pieces = _split_percent(l[1], args)
+        if pieces is not None:
+            return concat(pieces)
     if op == "Add":
         if r[0] == "binop" and r[1] == "Add" and _strish(r[2]) :
             # l + (r1 + r2) -> (l + r1) + r2   (only when the pieces are visibly strings)
@@ -226,6 +299,11 @@ def mkphi(c, a, b):
         return a if c[1] else b
     if a == b:
         return a
+    # `x if x else y` is `x or y`; `y if x else x` is `x and y`
+    if a == c:
+        return ("bool", "or", (c, b))
+    if b == c:
+        return ("bool", "and", (c, a))
     return ("phi", c, a, b)
 
 
@@ -510,6 +588,8 @@ class _State(object):
         if isinstance(n, ast.Lambda):
             return ("lambda", n.lineno, unparse(n))
         if isinstance(n, ast.JoinedStr):
+            if all(isinstance(v, ast.Constant) or (isinstance(v, ast.FormattedValue) and v.format_spec is None and v.conversion in (-1, 115)) for v in n.values):
+                return concat([self.expr(v.value) if isinstance(v, ast.FormattedValue) else ("const", v.value) for v in n.values])
             return ("fstring", tuple(self.expr(v.value) if isinstance(v, ast.FormattedValue) else ("const", v.value) for v in n.values))
         if isinstance(n, ast.Starred):
             return ("starred", self.expr(n.value))
@@ -550,7 +630,8 @@ class _State(object):
         if isinstance(f, ast.Name):
             if f.id in self.env:
                 fv = self.env[f.id]
-                if fv[0] == "funcref":
+                if fv[0] == "funcref" or (fv[0] == "global" and fv[1].startswith(self.repo.package + ".")):
+                    # a function (or module-level partial / compiled pattern) received as an argument
                     qn = fv[1]
                 elif fv[0] == "phi":
                     return ("callv", fv, args, kwargs)
@@ -577,6 +658,19 @@ class _State(object):
                     return ("call", "%s.%s" % (args[0][1], qn[3:]), args[1:], kwargs)
             else:
                 recv = self.expr(f.value)
+                if f.attr == "format" and recv[0] == "const" and isinstance(recv[1], str) and not any(k == "**" for k, _ in kwargs) and not any(a[0] == "starred" for a in args):
+                    pieces = _split_format(recv[1], list(args), kwargs)
+                    if pieces is not None:
+                        return concat(pieces)
+                if f.attr == "join" and recv[0] == "const" and isinstance(recv[1], str) and len(args) == 1 and args[0][0] in ("tuple", "list") and not kwargs:
+                    items = list(args[0][1])
+                    pieces = []
+                    for i, it in enumerate(items):
+                        if i and recv[1]:
+                            pieces.append(("const", recv[1]))
+                        pieces.append(it)
+                    if not any(it[0] == "starred" for it in items):
+                        return concat(pieces)
                 if recv[0] == "global" and ("re." + f.attr) in _RE_FUNCS and self._is_regex_global(recv[1]):
                     return ("call", "%s.%s" % (recv[1], f.attr), args, kwargs)
                 return ("method", f.attr, recv, args, kwargs)
